@@ -610,6 +610,17 @@ class Expr:
 					e = e[3][e[4].index(nm)]
 				elif e[0] == 'agg' and e[1] is None and nm.isdigit() and int(nm) < len(e[3]):
 					e = e[3][int(nm)]
+				elif nm == '0' and e[0] == 'downcast' and e[2] == 'Ready' and e[1][0] == 'call' and ((e[1][1] or '').endswith('Future::poll') or (len(e[1]) > 3 and (e[1][3] or '').endswith('Future::poll'))) and e[1][2]:
+					# `.await`: payload of Poll::Ready(poll(Pin::new_unchecked(&mut into_future(fut)))) == await(fut)
+					f = e[1][2][0]
+					for _ in range(8):
+						if f[0] in ('ref', 'deref'):
+							f = f[1]
+						elif f[0] == 'call' and f[2] and (f[1] or '').rsplit('::', 1)[-1] in ('new_unchecked', 'into_future', 'new', 'pin'):
+							f = f[2][0]
+						else:
+							break
+					e = ('call', 'await', [f], None)
 				elif e[0] == 'bin' and e[1].endswith('WithOverflow'):
 					if nm == '0':
 						e = ('bin', e[1][:-len('WithOverflow')], e[2], e[3])
@@ -636,7 +647,7 @@ class Expr:
 		if len(whole) == 1 and len(ds) == 1 and name is None:
 			d = whole[0]
 			return self.of_rvalue(d[3], depth + 1)
-		if len(whole) == 1 and len(ds) == 1 and name is not None and l not in fu.mut_borrowed:
+		if len(whole) == 1 and len(ds) == 1 and name is not None and (l not in fu.mut_borrowed or name == '__awaitee'):
 			# a user variable assigned exactly once (let x = ...) and never mutably borrowed: transparent too
 			d = whole[0]
 			return self.of_rvalue(d[3], depth + 1)
@@ -751,7 +762,7 @@ _ARITH_CALLS = {
 	'saturating_mul': 'Mul', 'checked_mul': 'Mul', 'wrapping_mul': 'Mul',
 }
 _PASS_CALLS = ('unwrap', 'expect', 'unwrap_or', 'clone', 'into', 'from', 'deref', 'borrow', 'as_ref', 'to_owned',
-	'unwrap_or_default')
+	'unwrap_or_default', 'await', 'deref_mut', 'as_mut', 'branch')
 
 def leaf_key(e):
 	"""canonical string of a leaf expression (used as variable name in normal forms)"""
